@@ -8,7 +8,7 @@ sched := {kind:'sched', id, cls:'pure'|'nestable' (top only; nested are always n
           window, timeout, sdt (shutdown_timeout), critical, forever, verbose,
           hkey, tkey, members:[...], edges:[[i,j]...] (j requires i), order:[perm],
           build:'ctor'|'add'|'update'|'kw'}
-job   := {kind:'job', id, cls:'abstract'|'coroutine', d:int|'never'|'tick', k, outcome:
+job   := {kind:'job', id, cls:'abstract'|'coroutine'|'print', d:int|'never'|'tick', k, outcome:
           'return'|'raise', critical, forever, c, sd, hkey, tkey}
 """
 
@@ -22,7 +22,7 @@ from .vloop import VLoop, Deadlock, Horizon
 
 import asynciojobs
 import asynciojobs.purescheduler as _ps
-from asynciojobs import AbstractJob, Job, Scheduler, PureScheduler
+from asynciojobs import AbstractJob, Job, PrintJob, Scheduler, PureScheduler
 
 warnings.filterwarnings('ignore', category=RuntimeWarning)
 warnings.filterwarnings('ignore', category=DeprecationWarning)
@@ -227,6 +227,52 @@ class VJob(_JobBehaviour, AbstractJob):
         return await self._v_shutdown()
 
 
+class VPrintJob(_JobBehaviour, PrintJob):
+    """the library's own PrintJob (prints, then sleeps `d` seconds, returns None, honours a
+    cancellation): its co_run() and co_shutdown() are used as they are, wrapped for the
+    trace; the flags are assigned as attributes, its constructor has no keyword for them"""
+
+    def __init__(self, spec, **extra):
+        self._v_init(spec)
+        PrintJob.__init__(self, spec['id'], 'runs', sleep=spec['d'] or None,
+                          label=spec.get('label', spec['id']), **extra)
+        self.critical = _ctor_critical(spec)
+        self.forever = _flag(spec, spec['forever'])
+
+    async def co_run(self):
+        rec = REC
+        who = self.v_id
+        rec.ev('enter', who)
+        try:
+            value = await PrintJob.co_run(self)
+        except asyncio.CancelledError:
+            rec.ev('cancel-seen', who)
+            rec.ev('exit', who, how='cancelled')
+            raise
+        if asyncio.current_task().cancelling():
+            # a user's job may do as it pleases with a cancellation; this is the library's
+            # own job class: a cancellation delivered in its sleep must end it as cancelled
+            rec.ev('anomaly', who, what="PrintJob.co_run() was cancelled during its sleep "
+                   "and returned normally: the job ends up done, with result None")
+        rec.ev('exit', who, how='return', obj=rec.tok(value))
+        return value
+
+    async def co_shutdown(self):
+        rec = REC
+        who = self.v_id
+        rec.ev('sd-enter', who)
+        try:
+            await PrintJob.co_shutdown(self)
+        except asyncio.CancelledError:
+            rec.ev('sd-exit', who, how='cancelled')
+            raise
+        rec.ev('sd-exit', who, how='done')
+
+
+def job_class(sp):
+    return {'coroutine': VCoJob, 'print': VPrintJob}.get(sp.get('cls'), VJob)
+
+
 class VCoJob(_JobBehaviour, Job):
     """coroutine-based Job: the library's Job.co_run / Job.co_shutdown are used"""
 
@@ -373,7 +419,10 @@ class VScheduler(_SchedBehaviour, Scheduler):
     def __init__(self, spec, *jobs, **extra):
         self._v_init(spec)
         if spec.get('late_attrs'):
-            Scheduler.__init__(self, *jobs, label=spec.get('label', spec['id']), **extra)
+            # built with other values, which the assignments below replace before the run
+            Scheduler.__init__(self, *jobs, label=spec.get('label', spec['id']),
+                               jobs_window=1, timeout=0.001, shutdown_timeout=0.001,
+                               verbose=not spec['verbose'], **extra)
         else:
             Scheduler.__init__(self, *jobs, critical=_flag(spec, spec['critical']),
                                forever=_flag(spec, spec['forever']),
@@ -385,7 +434,11 @@ class VScheduler(_SchedBehaviour, Scheduler):
 class VPureScheduler(_SchedBehaviour, PureScheduler):
     def __init__(self, spec, *jobs):
         self._v_init(spec)
-        PureScheduler.__init__(self, *jobs, **_sched_kwargs(spec))
+        if spec.get('late_attrs'):
+            PureScheduler.__init__(self, *jobs, jobs_window=1, timeout=0.001,
+                                   shutdown_timeout=0.001, verbose=not spec['verbose'])
+        else:
+            PureScheduler.__init__(self, *jobs, **_sched_kwargs(spec))
         _late_attrs(self, spec)
 
 
@@ -397,7 +450,7 @@ def build_latefill(spec, registry):
 
     def create(sp, top):
         if sp['kind'] == 'job':
-            obj = (VCoJob if sp.get('cls') == 'coroutine' else VJob)(sp)
+            obj = job_class(sp)(sp)
         else:
             cls = VPureScheduler if (top and sp.get('cls') == 'pure') else VScheduler
             obj = cls(sp)
@@ -436,7 +489,7 @@ def build_kw(spec, registry):
     def create(sp, parent, top):
         extra = {} if parent is None else dict(scheduler=parent)
         if sp['kind'] == 'job':
-            obj = (VCoJob if sp.get('cls') == 'coroutine' else VJob)(sp, **extra)
+            obj = job_class(sp)(sp, **extra)
         else:
             if top and sp.get('cls') == 'pure':
                 obj = VPureScheduler(sp)
@@ -474,7 +527,7 @@ def build(spec, registry, top=True, prelude=None):
         if m['kind'] == 'sched':
             obj = build(m, registry, top=False, prelude=prelude)
         else:
-            obj = (VCoJob if m.get('cls') == 'coroutine' else VJob)(m)
+            obj = job_class(m)(m)
             registry[m['id']] = obj
         objs.append(obj)
     decoys = []
@@ -683,6 +736,15 @@ def run_scenario(spec, sampling=False, run_on=True, explicit_shutdown=False,
             # first run: unthrottled and without deadlines (and with the decoy requirements
             # if any); the scenario's own settings are installed afterwards, as attributes
             real = {}
+            # members of the first run only (`ghosts`): added with add() now, taken away
+            # with remove() before the judged run - which must not remember them
+            ghosts = []
+            for sp, _, _ in iter_specs(spec):
+                if sp['kind'] == 'sched':
+                    for g in sp.get('ghosts', ()):
+                        ghost = VJob(g)
+                        registry[sp['id']].add(ghost)
+                        ghosts.append((registry[sp['id']], ghost))
             for ident, obj in registry.items():
                 if isinstance(obj, PureScheduler):
                     real[ident] = (obj.jobs_window, obj.timeout)
@@ -704,6 +766,8 @@ def run_scenario(spec, sampling=False, run_on=True, explicit_shutdown=False,
             for ident, (window, timeout) in real.items():
                 registry[ident].jobs_window = window
                 registry[ident].timeout = timeout
+            for sched, ghost in ghosts:
+                sched.remove(ghost)
             if pending_rewire is not None:
                 with contextlib.redirect_stdout(out):
                     rewire(pending_rewire)
